@@ -606,7 +606,13 @@ impl DrawState {
         }
 
         term.flush()?;
-        *bar_count = real_height + shift;
+        // The blank lines of a bottom-aligned frame were written first. If text lines followed
+        // them they are not adjacent to the bars any more and must not be erased with them.
+        let text_drawn = matches!(self.lines.first(), Some(LineType::Text(_) | LineType::Empty));
+        *bar_count = match text_drawn {
+            true => real_height,
+            false => real_height + shift,
+        };
 
         Ok(())
     }
